@@ -4183,7 +4183,7 @@ where
       && entry
         .occur
         .as_ref()
-        .is_some_and(|occur| matches!(occur.occur, Occur::Optional { .. }))
+        .is_some_and(|occur| matches!(normalized_occur(occur.occur), Occur::Optional { .. }))
     {
       // A member-key visitor that found no available pair takes the optional
       // entry's zero-width path. Do this before the entry value is visited so
@@ -4276,7 +4276,7 @@ where
           } else if entry
             .occur
             .as_ref()
-            .is_some_and(|occur| matches!(occur.occur, Occur::Optional { .. }))
+            .is_some_and(|occur| matches!(normalized_occur(occur.occur), Occur::Optional { .. }))
             && !Self::member_key_has_cut(entry)
           {
             // An optional entry without a cut matches a complete key/value
@@ -4935,7 +4935,7 @@ where
   }
 
   fn visit_occurrence(&mut self, o: &Occurrence<'a>) -> visitor::Result<Error<T>> {
-    self.state.occurrence = Some(o.occur);
+    self.state.occurrence = Some(normalized_occur(o.occur));
 
     Ok(())
   }
